@@ -10,6 +10,9 @@ Import ListNotations.
 Definition entry_le (er et : entry) : Prop :=
   (e_call0 er = true -> e_call0 et = true) /\ (forall a, e_call1 er a = true -> e_call1 et a = true).
 
+Definition entry_le_for (a : cls) (er et : entry) : Prop :=
+  (e_call0 er = true -> e_call0 et = true) /\ (e_call1 er a = true -> e_call1 et a = true).
+
 Definition opt_sim (r t : option entry) : Prop :=
   match r, t with
   | Some er, Some et => entry_le er et
@@ -35,6 +38,52 @@ Definition user_ok (nb : nat) (UR UT : table) (u : cls) : Prop :=
     ci_look (UR u) = ci_look (UT u) /\
     (exists us, ci_look (UR u) = us ++ [0] /\ Forall (fun k => nb <= k) us) /\
     (forall k, In k (ci_look (UR u)) -> nb <= k -> own_sim UR UT k /\ inst_sim UR UT k).
+
+(* what the argument class of a builtin dunder must satisfy: same chain, same defined names (implied by user_ok) *)
+Definition arg_ok (nb : nat) (UR UT : table) (a : cls) : Prop :=
+  nb <= a ->
+    ci_look (UR a) = ci_look (UT a) /\
+    (forall k, In k (ci_look (UR a)) -> nb <= k ->
+       forall n, ci_own (UR k) n = None <-> ci_own (UT k) n = None).
+
+Lemma entry_le_for_of : forall a er et, entry_le er et -> entry_le_for a er et.
+Proof. intros a er et [H0 H1]. split; [exact H0|apply H1]. Qed.
+
+Lemma user_ok_arg_ok : forall nb UR UT a, user_ok nb UR UT a -> arg_ok nb UR UT a.
+Proof.
+  intros nb UR UT a H Ha. destruct (H Ha) as [Hl [_ Hk]]. split; [exact Hl|].
+  intros k Hin Hkn n. destruct (Hk k Hin Hkn) as [Ho _]. specialize (Ho n). unfold opt_sim in Ho.
+  destruct (ci_own (UR k) n); destruct (ci_own (UT k) n); try contradiction; split; auto; discriminate.
+Qed.
+
+Lemma existsb_ext_in : forall (f g : nat -> bool) l, (forall k, In k l -> f k = g k) -> existsb f l = existsb g l.
+Proof.
+  intros f g l. induction l as [|h t IH]; intros H; [reflexivity|]. simpl.
+  rewrite (H h (or_introl eq_refl)). rewrite IH; [reflexivity|]. intros k Hk. apply H. right. exact Hk.
+Qed.
+
+Lemma user_has_eq : forall nb UR UT a n, nb <= a -> arg_ok nb UR UT a ->
+  user_has nb UR a n = user_has nb UT a n.
+Proof.
+  intros nb UR UT a n Ha H. destruct (H Ha) as [Hl Hk]. unfold user_has. rewrite <- Hl.
+  apply existsb_ext_in. intros k Hin. destruct (nb <=? k) eqn:L; [|reflexivity]. simpl.
+  apply Nat.leb_le in L. destruct (Hk k Hin L n) as [H1 H2].
+  destruct (ci_own (UR k) n) eqn:E1; destruct (ci_own (UT k) n) eqn:E2; try reflexivity.
+  - specialize (H2 eq_refl). discriminate.
+  - specialize (H1 eq_refl). discriminate.
+Qed.
+
+Lemma uacc_le_sound : forall nb UR UT a ur ut, nb <= a -> arg_ok nb UR UT a ->
+  uacc_le ur ut = true -> uacc_ok nb UR ur a = true -> uacc_ok nb UT ut a = true.
+Proof.
+  intros nb UR UT a ur ut Ha Hok Hle H.
+  destruct ur as [| |lr]; destruct ut as [| |lt]; simpl in *; try discriminate; try reflexivity.
+  apply existsb_exists in H. destruct H as [n [Hn Hu]].
+  rewrite forallb_forall in Hle. specialize (Hle n Hn). unfold mem in Hle.
+  apply existsb_exists in Hle. destruct Hle as [m [Hm Hnm]]. apply Nat.eqb_eq in Hnm. subst m.
+  apply existsb_exists. exists n. split; [exact Hm|].
+  rewrite <- (user_has_eq nb UR UT a n Ha Hok). exact Hu.
+Qed.
 
 Definition succ (T : table) (l r : cls) (n : name) : bool :=
   match try_call1 T l r n with Some _ => true | None => false end.
@@ -118,7 +167,7 @@ Proof.
 Qed.
 
 Lemma mk_table_builtin : forall rows U c r, nth_error rows c = Some r ->
-  mk_table rows U c = row_info (length rows) c r.
+  mk_table rows U c = row_info (length rows) U c r.
 Proof. intros. unfold mk_table. rewrite H. reflexivity. Qed.
 
 Lemma mk_table_user : forall rows U c, length rows <= c -> mk_table rows U c = U c.
@@ -128,15 +177,15 @@ Proof.
 Qed.
 
 Lemma lookup_builtin : forall rows U c r n, nth_error rows c = Some r ->
-  lookup (mk_table rows U) c n = option_map (entry_of (length rows)) (find_entry r n).
+  lookup (mk_table rows U) c n = option_map (entry_of (length rows) U) (find_entry r n).
 Proof.
   intros. unfold lookup. rewrite (mk_table_builtin _ _ _ _ H). simpl.
   rewrite (mk_table_builtin _ _ _ _ H). simpl.
-  destruct (option_map (entry_of (length rows)) (find_entry r n)); reflexivity.
+  destruct (option_map (entry_of (length rows) U) (find_entry r n)); reflexivity.
 Qed.
 
 Lemma getattr_builtin : forall rows U c r n, nth_error rows c = Some r ->
-  getattr (mk_table rows U) c n = option_map (entry_of (length rows)) (find_entry r n).
+  getattr (mk_table rows U) c n = option_map (entry_of (length rows) U) (find_entry r n).
 Proof.
   intros. unfold getattr.
   assert (E : inst_chain (mk_table rows U) (ci_look (mk_table rows U c)) = []).
@@ -144,27 +193,29 @@ Proof.
   rewrite E. simpl. apply lookup_builtin. exact H.
 Qed.
 
-Lemma succ_builtin_indep : forall rows U U' l r n, l < length rows ->
+Lemma succ_builtin_indep : forall rows U U' l r n, l < length rows -> r < length rows ->
   succ (mk_table rows U) l r n = succ (mk_table rows U') l r n.
 Proof.
-  intros. destruct (nth_error_heads _ _ H) as [row E].
-  unfold succ, try_call1. rewrite (lookup_builtin _ U _ _ _ E), (lookup_builtin _ U' _ _ _ E). reflexivity.
+  intros rows U U' l r n H Hr. destruct (nth_error_heads _ _ H) as [row E].
+  unfold succ, try_call1. rewrite (lookup_builtin _ U _ _ _ E), (lookup_builtin _ U' _ _ _ E).
+  destruct (find_entry row n) as [b|]; [|reflexivity]. simpl.
+  apply Nat.ltb_lt in Hr. rewrite Hr. reflexivity.
 Qed.
 
 Lemma binop_py_builtin_indep : forall rows U U' x n y, x < length rows -> y < length rows ->
   is_err (binop_py (mk_table rows U) x n y) = is_err (binop_py (mk_table rows U') x n y).
 Proof.
   intros. rewrite !binop_py_err.
-  rewrite (succ_builtin_indep rows U U' x y n H).
-  destruct (rname n) as [r|]; [rewrite (succ_builtin_indep rows U U' y x r H0)|]; reflexivity.
+  rewrite (succ_builtin_indep rows U U' x y n H H0).
+  destruct (rname n) as [r|]; [rewrite (succ_builtin_indep rows U U' y x r H0 H)|]; reflexivity.
 Qed.
 
 Lemma binop_c_builtin_indep : forall rows U U' x n y, x < length rows -> y < length rows ->
   is_err (binop_c (mk_table rows U) x n y) = is_err (binop_c (mk_table rows U') x n y).
 Proof.
   intros. rewrite !binop_c_err.
-  rewrite (succ_builtin_indep rows U U' x y n H).
-  destruct (rname n) as [r|]; [rewrite (succ_builtin_indep rows U U' y x r H0)|]; reflexivity.
+  rewrite (succ_builtin_indep rows U U' x y n H H0).
+  destruct (rname n) as [r|]; [rewrite (succ_builtin_indep rows U U' y x r H0 H)|]; reflexivity.
 Qed.
 
 (* ------------------------------------------------------------------------------------------ *)
@@ -179,17 +230,17 @@ Proof.
   split; [exact H1|]. apply Nat.eqb_eq. exact H2.
 Qed.
 
-Lemma bentry_le_sound : forall nb br bt, bentry_le nb br bt = true ->
-  entry_le (entry_of nb br) (entry_of nb bt).
+Lemma bentry_le_sound : forall nb UR UT a br bt, bentry_le nb br bt = true -> arg_ok nb UR UT a ->
+  entry_le_for a (entry_of nb UR br) (entry_of nb UT bt).
 Proof.
-  intros nb br bt H. unfold bentry_le in H.
+  intros nb UR UT a br bt H Hok. unfold bentry_le in H.
   apply andb_prop in H. destruct H as [H H3]. apply andb_prop in H. destruct H as [H1 H2].
   split; simpl.
   - intros E. rewrite E in H1. exact H1.
-  - intros a Ha. destruct (a <? nb) eqn:L.
+  - intros Ha. destruct (a <? nb) eqn:L.
     + apply Nat.ltb_lt in L. rewrite forallb_forall in H2.
       specialize (H2 a). rewrite Ha in H2. apply H2. apply in_seq. lia.
-    + rewrite Ha in H3. exact H3.
+    + apply Nat.ltb_ge in L. apply (uacc_le_sound nb UR UT a _ _ L Hok H3 Ha).
 Qed.
 
 (* ------------------------------------------------------------------------------------------ *)
@@ -204,11 +255,12 @@ Section Sim.
   Hypothesis Hlen : length rowsT = length rowsR.
   Hypothesis Hpos : 0 < length rowsT.
 
-  Lemma own_row0 : forall n,
+  Lemma own_row0 : forall a n,
+    arg_ok nb UR UT a ->
     obj_faithful rowsT rowsR = true ->
-    forall er, ci_own (R 0) n = Some er -> exists et, ci_own (T 0) n = Some et /\ entry_le er et.
+    forall er, ci_own (R 0) n = Some er -> exists et, ci_own (T 0) n = Some et /\ entry_le_for a er et.
   Proof.
-    intros n Hobj er Her. unfold obj_faithful in Hobj.
+    intros a n Hok Hobj er Her. unfold obj_faithful in Hobj.
     destruct (nth_error rowsT 0) as [rt|] eqn:ET; [|discriminate].
     destruct (nth_error rowsR 0) as [rr|] eqn:ER; [|discriminate].
     unfold R in Her. rewrite (mk_table_builtin _ _ _ _ ER) in Her. simpl in Her.
@@ -216,9 +268,9 @@ Section Sim.
     destruct (find_entry_some _ _ _ F) as [Hin Hn].
     rewrite forallb_forall in Hobj. specialize (Hobj br Hin). rewrite Hn in Hobj.
     destruct (find_entry rt n) as [bt|] eqn:FT; [|discriminate].
-    exists (entry_of nb bt). split.
+    exists (entry_of nb UT bt). split.
     - unfold T. rewrite (mk_table_builtin _ _ _ _ ET). simpl. rewrite FT. reflexivity.
-    - rewrite <- Hlen. apply bentry_le_sound. exact Hobj.
+    - rewrite <- Hlen. apply bentry_le_sound; assumption.
   Qed.
 
   Lemma own_row0_conv : forall n,
@@ -233,7 +285,7 @@ Section Sim.
     destruct (find_entry_some _ _ _ F) as [Hin Hn].
     rewrite forallb_forall in Hobj. specialize (Hobj bt Hin). rewrite Hn in Hobj.
     destruct (find_entry rr n) as [br|] eqn:FR; [|discriminate].
-    exists (entry_of (length rowsR) br).
+    exists (entry_of (length rowsR) UR br).
     unfold R. rewrite (mk_table_builtin _ _ _ _ ER). simpl. rewrite FR. reflexivity.
   Qed.
 
@@ -244,22 +296,23 @@ Section Sim.
   Qed.
 
   (* along a chain of user classes ending in object *)
-  Lemma chain_sim : forall us n,
+  Lemma chain_sim : forall a us n,
+    arg_ok nb UR UT a ->
     obj_faithful rowsT rowsR = true ->
     Forall (fun k => nb <= k) us ->
     (forall k, In k us -> own_sim UR UT k) ->
     forall er, lookup_chain R (us ++ [0]) n = Some er ->
-    exists et, lookup_chain T (us ++ [0]) n = Some et /\ entry_le er et.
+    exists et, lookup_chain T (us ++ [0]) n = Some et /\ entry_le_for a er et.
   Proof.
-    intros us n Hobj. induction us as [|k us IH]; intros Hall Hsim er Her.
+    intros a us n Hok Hobj. induction us as [|k us IH]; intros Hall Hsim er Her.
     - simpl in *. destruct (ci_own (R 0) n) as [e|] eqn:E; [|discriminate].
-      inversion Her; subst e. destruct (own_row0 n Hobj er E) as [et [E1 E2]].
+      inversion Her; subst e. destruct (own_row0 a n Hok Hobj er E) as [et [E1 E2]].
       exists et. rewrite E1. split; [reflexivity|exact E2].
     - inversion Hall; subst. destruct (user_row k H1) as [TK RK].
       simpl in *. rewrite RK in Her. rewrite TK.
       pose proof (Hsim k (or_introl eq_refl) n) as S. unfold opt_sim in S.
       destruct (ci_own (UR k) n) as [e1|]; destruct (ci_own (UT k) n) as [e2|]; try contradiction.
-      + inversion Her; subst e1. exists e2. split; [reflexivity|exact S].
+      + inversion Her; subst e1. exists e2. split; [reflexivity|apply entry_le_for_of; exact S].
       + apply IH; [exact H2|intros k' Hk'; apply Hsim; right; exact Hk'|exact Her].
   Qed.
 
@@ -312,10 +365,11 @@ Section Sim.
       rewrite Forall_forall in Hall. apply Hall. exact Hin.
   Qed.
 
-  Lemma lookup_user_sim : forall u n, nb <= u -> user_ok nb UR UT u -> obj_faithful rowsT rowsR = true ->
-    forall er, lookup R u n = Some er -> exists et, lookup T u n = Some et /\ entry_le er et.
+  Lemma lookup_user_sim : forall a u n, nb <= u -> user_ok nb UR UT u -> arg_ok nb UR UT a ->
+    obj_faithful rowsT rowsR = true ->
+    forall er, lookup R u n = Some er -> exists et, lookup T u n = Some et /\ entry_le_for a er et.
   Proof.
-    intros u n Hu Hrel Hobj er Her. destruct (user_chain u Hu Hrel) as [us [HR [HT [Hall [Hown _]]]]].
+    intros a u n Hu Hrel Hok Hobj er Her. destruct (user_chain u Hu Hrel) as [us [HR [HT [Hall [Hown _]]]]].
     unfold lookup in *. rewrite HR in Her. rewrite HT. apply chain_sim; assumption.
   Qed.
 
@@ -326,15 +380,16 @@ Section Sim.
     unfold lookup in *. rewrite HT in Het. rewrite HR. apply chain_sim_conv with (et := et); assumption.
   Qed.
 
-  Lemma getattr_user_sim : forall u n, nb <= u -> user_ok nb UR UT u -> obj_faithful rowsT rowsR = true ->
-    forall er, getattr R u n = Some er -> exists et, getattr T u n = Some et /\ entry_le er et.
+  Lemma getattr_user_sim : forall a u n, nb <= u -> user_ok nb UR UT u -> arg_ok nb UR UT a ->
+    obj_faithful rowsT rowsR = true ->
+    forall er, getattr R u n = Some er -> exists et, getattr T u n = Some et /\ entry_le_for a er et.
   Proof.
-    intros u n Hu Hrel Hobj er Her. destruct (user_chain u Hu Hrel) as [us [HR [HT [Hall [Hown Hinst]]]]].
+    intros a u n Hu Hrel Hok Hobj er Her. destruct (user_chain u Hu Hrel) as [us [HR [HT [Hall [Hown Hinst]]]]].
     unfold getattr in *. rewrite HR in Her. rewrite HT.
     pose proof (inst_sim_chain us n Hall Hinst) as S. unfold opt_sim in S.
     destruct (assoc n (inst_chain R (us ++ [0]))) as [e1|];
       destruct (assoc n (inst_chain T (us ++ [0]))) as [e2|]; try contradiction.
-    - inversion Her; subst e1. exists e2. split; [reflexivity|exact S].
+    - inversion Her; subst e1. exists e2. split; [reflexivity|apply entry_le_for_of; exact S].
     - unfold lookup in *. rewrite HR in Her. rewrite HT. apply chain_sim; assumption.
   Qed.
 
@@ -352,23 +407,24 @@ Section Sim.
 
   (* success of one option transfers from the run-time table to the pytype table, unless both operands are
      builtin heads (that case is decided by pair_faithful) *)
-  Lemma succ_transfer_user_left : forall l r n, nb <= l -> user_ok nb UR UT l ->
+  Lemma succ_transfer_user_left : forall l r n, nb <= l -> user_ok nb UR UT l -> arg_ok nb UR UT r ->
     obj_faithful rowsT rowsR = true ->
     succ R l r n = true -> succ T l r n = true.
   Proof.
-    intros l r n Hl Hrel Hobj H. unfold succ, try_call1 in *.
+    intros l r n Hl Hrel Hok Hobj H. unfold succ, try_call1 in *.
     destruct (lookup R l n) as [er|] eqn:E; [|discriminate].
     destruct (e_call1 er r) eqn:C; [|discriminate].
-    destruct (lookup_user_sim l n Hl Hrel Hobj er E) as [et [E1 [_ E2]]].
-    rewrite E1. rewrite (E2 r C). reflexivity.
+    destruct (lookup_user_sim r l n Hl Hrel Hok Hobj er E) as [et [E1 [_ E2]]].
+    rewrite E1. rewrite (E2 C). reflexivity.
   Qed.
 
-  Lemma succ_transfer_user_right : forall l r n, l < nb -> nb <= r -> In n dunder1_names ->
+  Lemma succ_transfer_user_right : forall l r n, l < nb -> nb <= r -> arg_ok nb UR UT r ->
+    In n dunder1_names ->
     excl_fp_bin l n nb = false ->
     ucol_faithful rowsT rowsR = true ->
     succ R l r n = true -> succ T l r n = true.
   Proof.
-    intros l r n Hl Hr Hn Hex Hu H.
+    intros l r n Hl Hr Hok Hn Hex Hu H.
     destruct (nth_error_heads rowsT l Hl) as [rt ET].
     assert (Hl' : l < length rowsR) by (rewrite <- Hlen; exact Hl).
     destruct (nth_error_heads rowsR l Hl') as [rr ER].
@@ -376,15 +432,17 @@ Section Sim.
     rewrite (lookup_builtin _ _ _ _ _ ER) in H. rewrite (lookup_builtin _ _ _ _ _ ET).
     unfold ucol_faithful in Hu. rewrite forallb_forall in Hu.
     specialize (Hu l (in_heads _ _ Hl)). rewrite forallb_forall in Hu. specialize (Hu n Hn).
-    fold nb in Hu. rewrite Hex in Hu. simpl in Hu.
-    unfold acc_user in Hu. rewrite ET, ER in Hu.
+    fold nb in Hu. rewrite Hex in Hu. rewrite orb_false_l in Hu.
+    unfold uacc_of in Hu. rewrite ET, ER in Hu.
     destruct (find_entry rr n) as [br|]; [|discriminate]. simpl in H.
     assert (Lr : (r <? length rowsR) = false) by (apply Nat.ltb_ge; rewrite <- Hlen; exact Hr).
     rewrite Lr in H.
-    destruct (be_acc_user br) eqn:A; [|discriminate]. simpl in Hu.
-    destruct (find_entry rt n) as [bt|]; [|discriminate]. simpl.
-    assert (Lt : (r <? length rowsT) = false) by (apply Nat.ltb_ge; exact Hr).
-    rewrite Lt, Hu. reflexivity.
+    destruct (uacc_ok (length rowsR) UR (be_uacc br) r) eqn:A; [|discriminate].
+    destruct (find_entry rt n) as [bt|].
+    - simpl. assert (Lt : (r <? length rowsT) = false) by (apply Nat.ltb_ge; exact Hr).
+      rewrite Lt. rewrite <- Hlen in A.
+      rewrite (uacc_le_sound nb UR UT r _ _ Hr Hok Hu A). reflexivity.
+    - destruct (be_uacc br); simpl in *; discriminate.
   Qed.
 End Sim.
 
@@ -414,11 +472,11 @@ Qed.
 Lemma reported_is_real_lemma : forall (rowsT rowsR : list brow) (UT UR : table) x n y,
   shape_ok rowsT rowsR = true -> pair_faithful rowsT rowsR = true ->
   ucol_faithful rowsT rowsR = true -> obj_faithful rowsT rowsR = true ->
-  user_rel (length rowsT) UR UT ->
+  user_ok (length rowsT) UR UT x -> user_ok (length rowsT) UR UT y ->
   In n binop_names -> excl_fp_bin x n y = false ->
   binop_py (mk_table rowsT UT) x n y = Err -> binop_c (mk_table rowsR UR) x n y = Err.
 Proof.
-  intros rowsT rowsR UT UR x n y Hshape Hpair Hucol Hobj Hrel Hn Hex Hpy.
+  intros rowsT rowsR UT UR x n y Hshape Hpair Hucol Hobj Hrx Hry Hn Hex Hpy.
   unfold shape_ok in Hshape. apply andb_prop in Hshape. destruct Hshape as [Hs _].
   apply andb_prop in Hs. destruct Hs as [Hlen Hpos].
   apply Nat.eqb_eq in Hlen. apply Nat.ltb_lt in Hpos.
@@ -443,14 +501,14 @@ Proof.
     assert (Hex' : excl_fp_bin x n nb = false) by exact Hex.
     assert (S1 : succ (mk_table rowsT UT) x y n = false -> succ (mk_table rowsR UR) x y n = false).
     { intros F. destruct (succ (mk_table rowsR UR) x y n) eqn:S; [|reflexivity].
-      rewrite (succ_transfer_user_right rowsT rowsR UT UR Hlen x y n Lx Ly (binop_dunder1 n Hn) Hex' Hucol S) in F.
+      rewrite (succ_transfer_user_right rowsT rowsR UT UR Hlen x y n Lx Ly (user_ok_arg_ok _ _ _ _ Hry) (binop_dunder1 n Hn) Hex' Hucol S) in F.
       discriminate. }
     destruct (rname n) as [r|] eqn:Er.
     + apply andb_prop in Epy. destruct Epy as [E1 E2].
       apply negb_true_iff in E1. apply negb_true_iff in E2.
       rewrite (S1 E1). simpl.
       destruct (succ (mk_table rowsR UR) y x r) eqn:S; [|apply orb_true_r].
-      rewrite (succ_transfer_user_left rowsT rowsR UT UR Hlen Hrel y x r Ly Hobj S) in E2. discriminate.
+      rewrite (succ_transfer_user_left rowsT rowsR UT UR Hlen y x r Ly Hry (user_ok_arg_ok _ _ _ _ Hrx) Hobj S) in E2. discriminate.
     + apply negb_true_iff in Epy. rewrite (S1 Epy). reflexivity.
   - (* x user, y builtin *)
     apply Nat.ltb_ge in Lx. apply Nat.ltb_lt in Ly.
@@ -458,7 +516,7 @@ Proof.
     apply andb_prop in Epy. destruct Epy as [_ Epy].
     assert (S1 : succ (mk_table rowsT UT) x y n = false -> succ (mk_table rowsR UR) x y n = false).
     { intros F. destruct (succ (mk_table rowsR UR) x y n) eqn:S; [|reflexivity].
-      rewrite (succ_transfer_user_left rowsT rowsR UT UR Hlen Hrel x y n Lx Hobj S) in F. discriminate. }
+      rewrite (succ_transfer_user_left rowsT rowsR UT UR Hlen x y n Lx Hrx (user_ok_arg_ok _ _ _ _ Hry) Hobj S) in F. discriminate. }
     destruct (rname n) as [r|] eqn:Er.
     + apply andb_prop in Epy. destruct Epy as [E1 E2].
       apply negb_true_iff in E1. apply negb_true_iff in E2.
@@ -466,22 +524,24 @@ Proof.
       destruct (succ (mk_table rowsR UR) y x r) eqn:S; [|apply orb_true_r].
       assert (Hexr : excl_fp_bin y r nb = false).
       { unfold excl_fp_bin. rewrite (rname_not_getitem n r Er). apply andb_false_r. }
-      rewrite (succ_transfer_user_right rowsT rowsR UT UR Hlen y x r Ly Lx (rname_dunder1 n r Hn Er) Hexr Hucol S) in E2.
+      rewrite (succ_transfer_user_right rowsT rowsR UT UR Hlen y x r Ly Lx (user_ok_arg_ok _ _ _ _ Hrx) (rname_dunder1 n r Hn Er) Hexr Hucol S) in E2.
       discriminate.
     + apply negb_true_iff in Epy. rewrite (S1 Epy). reflexivity.
   - (* both user *)
     apply Nat.ltb_ge in Lx. apply Nat.ltb_ge in Ly.
     rewrite binop_py_err in Epy. rewrite binop_c_err.
     apply andb_prop in Epy. destruct Epy as [_ Epy].
-    assert (S1 : forall l r m, nb <= l -> succ (mk_table rowsT UT) l r m = false ->
+    assert (S1 : forall l r m, nb <= l -> user_ok nb UR UT l -> user_ok nb UR UT r ->
+                                succ (mk_table rowsT UT) l r m = false ->
                                 succ (mk_table rowsR UR) l r m = false).
-    { intros l r m Hl F. destruct (succ (mk_table rowsR UR) l r m) eqn:S; [|reflexivity].
-      rewrite (succ_transfer_user_left rowsT rowsR UT UR Hlen Hrel l r m Hl Hobj S) in F. discriminate. }
+    { intros l r m Hl Hrl Hrr F. destruct (succ (mk_table rowsR UR) l r m) eqn:S; [|reflexivity].
+      rewrite (succ_transfer_user_left rowsT rowsR UT UR Hlen l r m Hl Hrl (user_ok_arg_ok _ _ _ _ Hrr) Hobj S) in F.
+      discriminate. }
     destruct (rname n) as [r|] eqn:Er.
     + apply andb_prop in Epy. destruct Epy as [E1 E2].
       apply negb_true_iff in E1. apply negb_true_iff in E2.
-      rewrite (S1 x y n Lx E1), (S1 y x r Ly E2). simpl. apply orb_true_r.
-    + apply negb_true_iff in Epy. rewrite (S1 x y n Lx Epy). reflexivity.
+      rewrite (S1 x y n Lx Hrx Hry E1), (S1 y x r Ly Hry Hrx E2). simpl. apply orb_true_r.
+    + apply negb_true_iff in Epy. rewrite (S1 x y n Lx Hrx Hry Epy). reflexivity.
 Qed.
 
 (* attribute access / method call / unary minus / call: pytype error => run-time error *)
@@ -515,7 +575,7 @@ Qed.
 
 Lemma unary_reported_is_real_lemma : forall (rowsT rowsR : list brow) (UT UR : table) x n,
   shape_ok rowsT rowsR = true -> unary_faithful rowsT rowsR = true -> obj_faithful rowsT rowsR = true ->
-  user_rel (length rowsT) UR UT ->
+  user_ok (length rowsT) UR UT x ->
   in_scope_fp rowsR x n = true ->
   (attr (mk_table rowsT UT) x n = Err -> attr (mk_table rowsR UR) x n = Err) /\
   (mcall (mk_table rowsT UT) x n = Err -> mcall (mk_table rowsR UR) x n = Err) /\
@@ -549,10 +609,11 @@ Proof.
   - (* user class *)
     apply Nat.ltb_ge in Lx.
     set (T := mk_table rowsT UT). set (R := mk_table rowsR UR).
-    assert (GA : forall er, getattr R x n = Some er -> exists et, getattr T x n = Some et /\ entry_le er et)
-      by (apply (getattr_user_sim rowsT rowsR UT UR Hlen Hpos Hrel x n Lx Hobj)).
-    assert (LK : forall er, lookup R x n = Some er -> exists et, lookup T x n = Some et /\ entry_le er et)
-      by (apply (lookup_user_sim rowsT rowsR UT UR Hlen Hrel x n Lx Hobj)).
+    assert (A0 : arg_ok (length rowsT) UR UT 0) by (intros C; lia).
+    assert (GA : forall er, getattr R x n = Some er -> exists et, getattr T x n = Some et /\ entry_le_for 0 er et)
+      by (apply (getattr_user_sim rowsT rowsR UT UR Hlen Hpos 0 x n Lx Hrel A0 Hobj)).
+    assert (LK : forall er, lookup R x n = Some er -> exists et, lookup T x n = Some et /\ entry_le_for 0 er et)
+      by (apply (lookup_user_sim rowsT rowsR UT UR Hlen 0 x n Lx Hrel A0 Hobj)).
     unfold attr, mcall, call0. repeat split.
     + destruct (getattr R x n) as [er|]; [|reflexivity].
       destruct (GA er eq_refl) as [et [E _]]. rewrite E. discriminate.
@@ -588,7 +649,7 @@ Qed.
 (* missing attribute / method, non-callable: run-time error => pytype error *)
 Lemma presence_caught_lemma : forall (rowsT rowsR : list brow) (UT UR : table) x n,
   shape_ok rowsT rowsR = true -> presence_caught rowsT rowsR = true -> obj_complete rowsT rowsR = true ->
-  user_rel (length rowsT) UR UT ->
+  user_ok (length rowsT) UR UT x ->
   (length rowsT <=? x) || (N_NEG <=? n) = true ->
   (attr (mk_table rowsR UR) x n = Err -> attr (mk_table rowsT UT) x n = Err) /\
   (getattr (mk_table rowsR UR) x n = None -> mcall (mk_table rowsT UT) x n = Err) /\
@@ -619,9 +680,9 @@ Proof.
   - apply Nat.ltb_ge in Lx.
     set (T := mk_table rowsT UT). set (R := mk_table rowsR UR).
     assert (GA : forall et, getattr T x n = Some et -> exists er, getattr R x n = Some er)
-      by (apply (getattr_user_conv rowsT rowsR UT UR Hlen Hpos Hrel x n Lx Hobj)).
+      by (apply (getattr_user_conv rowsT rowsR UT UR Hlen Hpos x n Lx Hrel Hobj)).
     assert (LK : forall et, lookup T x n = Some et -> exists er, lookup R x n = Some er)
-      by (apply (lookup_user_conv rowsT rowsR UT UR Hlen Hrel x n Lx Hobj)).
+      by (apply (lookup_user_conv rowsT rowsR UT UR Hlen x n Lx Hrel Hobj)).
     unfold attr, mcall, call0. repeat split.
     + destruct (getattr T x n) as [et|]; [|reflexivity].
       destruct (GA et eq_refl) as [er E]. rewrite E. discriminate.
@@ -686,3 +747,88 @@ Proof. vm_compute. reflexivity. Qed.
 
 Lemma nb_is : length py_rows = c14_nb.
 Proof. vm_compute. reflexivity. Qed.
+
+(* ------------------------------------------------------------------------------------------ *)
+(* the property statements on this run's tables, for every user part *)
+
+Definition PY (UT : table) : table := mk_table py_rows UT.
+Definition RT (UR : table) : table := mk_table rt_rows UR.
+Definition user_class_ok (UR UT : table) (u : cls) : Prop := user_ok c14_nb UR UT u.
+
+Lemma reported_is_real_inst : forall (UT UR : table) x n y,
+  user_class_ok UR UT x -> user_class_ok UR UT y ->
+  In n binop_names -> excl_fp_bin x n y = false ->
+  binop_py (PY UT) x n y = Err -> binop_c (RT UR) x n y = Err.
+Proof.
+  intros UT UR x n y Hx Hy. unfold user_class_ok in *. rewrite <- nb_is in *.
+  apply reported_is_real_lemma; auto using shape_ok_holds, pair_faithful_holds, ucol_faithful_holds,
+    obj_faithful_holds.
+Qed.
+
+Lemma attr_reported_is_real_inst : forall (UT UR : table) x n,
+  user_class_ok UR UT x -> in_scope_fp rt_rows x n = true ->
+  (attr (PY UT) x n = Err -> attr (RT UR) x n = Err) /\
+  (mcall (PY UT) x n = Err -> mcall (RT UR) x n = Err).
+Proof.
+  intros UT UR x n Hx Hs. unfold user_class_ok in *. rewrite <- nb_is in *.
+  destruct (unary_reported_is_real_lemma py_rows rt_rows UT UR x n shape_ok_holds unary_faithful_holds
+              obj_faithful_holds Hx Hs) as [A [B _]].
+  split; assumption.
+Qed.
+
+Lemma excl_fp_mcall_neg : forall o, excl_fp_mcall o N_NEG = false.
+Proof. intros o. unfold excl_fp_mcall, excl_fp_attr. destruct (o =? C_INT); reflexivity. Qed.
+
+Lemma excl_fp_mcall_call : forall o, excl_fp_mcall o N_CALL = false.
+Proof. intros o. unfold excl_fp_mcall, excl_fp_attr. destruct (o =? C_INT); reflexivity. Qed.
+
+Lemma call_reported_is_real_inst : forall (UT UR : table) x,
+  user_class_ok UR UT x ->
+  (call (PY UT) x = Err -> call (RT UR) x = Err) /\ (neg (PY UT) x = Err -> neg (RT UR) x = Err).
+Proof.
+  intros UT UR x Hx. unfold user_class_ok in *. rewrite <- nb_is in *. split.
+  - assert (Hs : in_scope_fp rt_rows x N_CALL = true).
+    { unfold in_scope_fp. rewrite excl_fp_mcall_call. apply orb_true_r. }
+    destruct (unary_reported_is_real_lemma py_rows rt_rows UT UR x N_CALL shape_ok_holds unary_faithful_holds
+                obj_faithful_holds Hx Hs) as [_ [_ C]]. exact C.
+  - assert (Hs : in_scope_fp rt_rows x N_NEG = true).
+    { unfold in_scope_fp. rewrite excl_fp_mcall_neg. apply orb_true_r. }
+    destruct (unary_reported_is_real_lemma py_rows rt_rows UT UR x N_NEG shape_ok_holds unary_faithful_holds
+                obj_faithful_holds Hx Hs) as [_ [_ C]]. exact C.
+Qed.
+
+Lemma mistake_caught_inst : forall (UT UR : table) x n y,
+  x < c14_nb -> y < c14_nb -> In n advertised_names -> excl_mc_bin x n y = false ->
+  binop_c (RT UR) x n y = Err -> binop_py (PY UT) x n y = Err.
+Proof.
+  intros UT UR x n y Hx Hy. rewrite <- nb_is in *.
+  apply mistake_caught_lemma; auto using shape_ok_holds, pair_caught_holds.
+Qed.
+
+Lemma neg_mistake_caught_inst : forall (UT UR : table) x,
+  x < c14_nb -> neg (RT UR) x = Err -> neg (PY UT) x = Err.
+Proof.
+  intros UT UR x Hx. rewrite <- nb_is in *.
+  apply neg_caught_lemma; auto using shape_ok_holds, presence_caught_holds.
+Qed.
+
+Lemma missing_attr_caught_inst : forall (UT UR : table) x n,
+  user_class_ok UR UT x -> (c14_nb <=? x) || (N_NEG <=? n) = true ->
+  attr (RT UR) x n = Err -> attr (PY UT) x n = Err /\ mcall (PY UT) x n = Err.
+Proof.
+  intros UT UR x n Hx Hs Ha. unfold user_class_ok in *. rewrite <- nb_is in *.
+  destruct (presence_caught_lemma py_rows rt_rows UT UR x n shape_ok_holds presence_caught_holds
+              obj_complete_holds Hx Hs) as [A [B _]].
+  split; [apply A; exact Ha|apply B].
+  unfold RT, attr in Ha. destruct (getattr (mk_table rt_rows UR) x n); [discriminate|reflexivity].
+Qed.
+
+Lemma noncallable_caught_inst : forall (UT UR : table) x,
+  user_class_ok UR UT x -> lookup (RT UR) x N_CALL = None -> call (PY UT) x = Err.
+Proof.
+  intros UT UR x Hx Hn. unfold user_class_ok in *. rewrite <- nb_is in *.
+  assert (Hs : (length py_rows <=? x) || (N_NEG <=? N_CALL) = true) by apply orb_true_r.
+  destruct (presence_caught_lemma py_rows rt_rows UT UR x N_CALL shape_ok_holds presence_caught_holds
+              obj_complete_holds Hx Hs) as [_ [_ C]].
+  apply C. exact Hn.
+Qed.
